@@ -619,7 +619,7 @@ pub fn outcome(fmt: i64, cfg: i64, bs: usize, variant: i64, input: &[u8], bounds
     o
 }
 /// the single-chunk run the property compares against (same normalisation as `outcome`)
-pub fn baseline(fmt: i64, cfg: i64, bs: usize, variant: i64, input: &[u8]) -> Outcome {
+fn baseline_inproc(fmt: i64, cfg: i64, bs: usize, variant: i64, input: &[u8]) -> Outcome {
     let bv = match fmt { F_IPC | F_JSON | F_CSV | F_PARQUET | F_FLIGHT => 0, _ => 0 };
     let mut o = outcome(fmt, cfg, bs, bv, input, &[]);
     if fmt == F_JSON && variant >= 16 && o.status != 0 { o.nrows = 0; o.rows = 0; o.ncols = 0; }
@@ -648,10 +648,10 @@ fn family_count(fam: i64, n: usize, p: usize, nallowed: usize) -> BigInt {
 /// enumerate the chunkings of a family; returns the first whose outcome differs from `base`
 fn sweep(fmt: i64, cfg: i64, bs: usize, variant: i64, input: &[u8], fam: i64, p: usize, q: usize, allowed: &[usize]) -> Option<(Vec<usize>, Outcome)> {
     let n = input.len();
-    let base = baseline(fmt, cfg, bs, variant, input);
+    let base = baseline_inproc(fmt, cfg, bs, variant, input);
     let mut check = |b: &[usize]| -> Option<(Vec<usize>, Outcome)> {
         let o = outcome(fmt, cfg, bs, variant, input, b);
-        if o != base { Some((b.to_vec(), o)) } else { None }
+        if o != base || !o.batch_ok { Some((b.to_vec(), o)) } else { None }
     };
     match fam {
         0 => { for i in 0..=n { if let Some(f) = check(&[i]) { return Some(f); } } }
@@ -687,8 +687,12 @@ fn sweep(fmt: i64, cfg: i64, bs: usize, variant: i64, input: &[u8], fam: i64, p:
     None
 }
 
-pub fn run(op: &str, a: &Args) -> Option<Args> {
+fn run_direct(op: &str, a: &Args) -> Option<Args> {
     Some(match op {
+        "c14.baseline" => {
+            let h = to_i64s(&a[0]);
+            baseline_inproc(h[0], h[1], h[2] as usize, h[3], &to_u8s(&a[1])).groups()
+        }
         "c14.chunk" => {
             let h = to_i64s(&a[0]);
             let input = to_u8s(&a[1]);
@@ -757,6 +761,82 @@ pub fn run(op: &str, a: &Args) -> Option<Args> {
         }
         _ => return None,
     })
+}
+
+
+// ------------------------------------------------------------------------------------------------
+// process isolation: the decoders run in a worker process (`harness replay <fifo>` with
+// VERIF_C14_WORKER set), so that an abort inside arrow-rs (allocation failure, non-unwinding panic)
+// or a hang under some chunking is reported as an outcome of that case instead of killing the run.
+mod worker {
+    use super::*;
+    use std::io::Write;
+    use std::sync::mpsc::{channel, Receiver};
+    use std::sync::Mutex;
+    struct W { child: std::process::Child, tx: std::fs::File, rx: Receiver<Option<String>>, dir: std::path::PathBuf }
+    static W: Mutex<Option<W>> = Mutex::new(None);
+    static SEQ: std::sync::atomic::AtomicUsize = std::sync::atomic::AtomicUsize::new(0);
+    fn spawn() -> Option<W> {
+        let n = SEQ.fetch_add(1, std::sync::atomic::Ordering::SeqCst);
+        let dir = std::env::temp_dir().join(format!("c14w-{}-{}", std::process::id(), n));
+        std::fs::create_dir_all(&dir).ok()?;
+        let (fin, fout) = (dir.join("in"), dir.join("out"));
+        for f in [&fin, &fout] { if !std::process::Command::new("mkfifo").arg(f).status().ok()?.success() { return None; } }
+        let child = std::process::Command::new(std::env::current_exe().ok()?).arg("replay").arg(&fin)
+            .env("VERIF_C14_WORKER", &fout).stdout(std::process::Stdio::null()).spawn().ok()?;
+        let tx = std::fs::OpenOptions::new().write(true).open(&fin).ok()?; // blocks until the worker opens its end
+        let (s, rx) = channel();
+        std::thread::spawn(move || {
+            use std::io::BufRead;
+            let f = match std::fs::File::open(&fout) { Ok(f) => f, Err(_) => { let _ = s.send(None); return; } };
+            let mut rd = std::io::BufReader::new(f);
+            loop {
+                let mut line = String::new();
+                match rd.read_line(&mut line) { Ok(0) | Err(_) => { let _ = s.send(None); return; } Ok(_) => { if s.send(Some(line)).is_err() { return; } } }
+            }
+        });
+        Some(W { child, tx, rx, dir })
+    }
+    fn kill(w: &mut W) { let _ = w.child.kill(); let _ = w.child.wait(); let _ = std::fs::remove_dir_all(&w.dir); }
+    pub fn call(op: &str, a: &Args) -> Args {
+        let mut g = W.lock().unwrap();
+        if g.is_none() { *g = spawn(); }
+        let Some(w) = g.as_mut() else { return err(E_IO) };
+        let line = format!("0:{op}\tx\t{}\n", fmt_args(a));
+        if w.tx.write_all(line.as_bytes()).and_then(|_| w.tx.flush()).is_err() { kill(w); *g = None; return err(E_PANIC); }
+        let secs = std::env::var("VERIF_C14_TIMEOUT").ok().and_then(|s| s.parse().ok()).unwrap_or(120u64);
+        match w.rx.recv_timeout(std::time::Duration::from_secs(secs)) {
+            Ok(Some(l)) => { let _ = std::fs::remove_dir_all(&w.dir); parse_args(l.trim_end()) }
+            // worker died (abort) or hangs: this case crashed the real code
+            _ => { kill(w); *g = None; err(E_PANIC) }
+        }
+    }
+    static OUT: Mutex<Option<std::fs::File>> = Mutex::new(None);
+    /// in the worker: run the op, report the result on the side channel
+    pub fn serve(path: &str, op: &str, a: &Args) -> Option<Args> {
+        {
+            let mut o = OUT.lock().unwrap();
+            if o.is_none() { *o = std::fs::OpenOptions::new().write(true).open(path).ok(); }
+        }
+        let r = catch_unwind(AssertUnwindSafe(|| run_direct(op, a))).unwrap_or_else(|_| Some(err(E_PANIC)))?;
+        let mut o = OUT.lock().unwrap();
+        if let Some(f) = o.as_mut() { let _ = f.write_all(format!("{}\n", fmt_args(&r)).as_bytes()); let _ = f.flush(); }
+        Some(r)
+    }
+}
+
+pub fn run(op: &str, a: &Args) -> Option<Args> {
+    if !matches!(op, "c14.baseline" | "c14.chunk" | "c14.sweep" | "c14.ipc_calls" | "c14.ipc_events" | "c14.avro_ocf" | "c14.avro_vals") { return None; }
+    if let Ok(path) = std::env::var("VERIF_C14_WORKER") { return worker::serve(&path, op, a); }
+    if std::env::var("VERIF_C14_INPROC").is_ok() { return run_direct(op, a); }
+    Some(worker::call(op, a))
+}
+/// the single-chunk run, computed in the worker
+pub fn baseline(fmt: i64, cfg: i64, bs: usize, variant: i64, input: &[u8]) -> Outcome {
+    let r = run("c14.baseline", &vec![vec![BigInt::from(fmt), BigInt::from(cfg), BigInt::from(bs), BigInt::from(variant)], gbytes(input)]).unwrap();
+    if r.len() != 5 { return Outcome::panic(); }
+    let u = |g: &Group, i: usize| -> u64 { g.get(i).and_then(|x| u64::try_from(x).ok()).unwrap_or(0) };
+    Outcome { status: r[0].first().and_then(|x| i64::try_from(x).ok()).unwrap_or(ST_PANIC), nrows: u(&r[1], 0), ncols: u(&r[1], 1), schema: u(&r[2], 0), rows: u(&r[3], 0), batch_ok: u(&r[4], 0) == 1 }
 }
 
 // ================================================================================================
@@ -926,7 +1006,7 @@ fn gen_ipc_model(tier: &str, r: &mut Rng, emit: &mut dyn FnMut(Case), count: usi
         };
         put(vec![], "one");
         for _ in 0..(if tier == "thorough" { 40 } else { 16 }) { put(rand_bounds(r, n), "rand"); }
-        if i % 5 == 0 || tier == "thorough" { for p in 0..=n { put(vec![p], "split"); } }
+        if i % 5 == 0 || (tier == "thorough" && i % 2 == 0) { for p in 0..=n { put(vec![p], "split"); } }
     }
 }
 
@@ -1000,7 +1080,7 @@ fn gen_avro_model(tier: &str, r: &mut Rng, emit: &mut dyn FnMut(Case), count: us
         };
         put(vec![], "one");
         for _ in 0..(if tier == "thorough" { 30 } else { 12 }) { put(rand_bounds(r, n), "rand"); }
-        if i % 8 == 0 || tier == "thorough" { for p in 0..=n { put(vec![p], "split"); } }
+        if i % 8 == 0 || (tier == "thorough" && i % 3 == 0) { for p in 0..=n { put(vec![p], "split"); } }
     }
 }
 
